@@ -136,7 +136,8 @@ async fn framing_case(ctx: &mut Ctx, rng: &mut Rng, logging: bool) {
         chunks.push(stream[at..end].to_vec());
         at = end;
     }
-    for c in &chunks { s.inp.write_all(c).await.unwrap(); settle().await; }
+    // a write error means the plugin closed its input (its read loop ended): the oracles below report what is missing
+    for c in &chunks { if s.inp.write_all(c).await.is_err() { ctx.count("input-closed-by-plugin"); break; } settle().await; }
     let seen = s.shared.seen.lock().unwrap().clone();
     let observed = if seen.is_empty() { "-".to_string() } else { seen.iter().map(|t| msgs.get(*t as usize).map(|m| hex(m)).unwrap_or("?".into())).collect::<Vec<_>>().join(";") };
     ctx.case(&format!("wf {}", chunks.iter().map(|c| hex(c)).collect::<Vec<_>>().join(",")), &observed, chunks.len() > msgs.len());
@@ -166,7 +167,7 @@ async fn dispatch_case(ctx: &mut Ctx, rng: &mut Rng, logging: bool) {
         if do_recv {
             let id = if rng.coin(1, 3) { 7 } else { next + 10 };
             let mut m = msg_request(&json!(id), next, ""); m.extend_from_slice(b"\n\n");
-            s.inp.write_all(&m).await.unwrap(); settle().await;
+            if s.inp.write_all(&m).await.is_err() { ctx.count("input-closed-by-plugin"); } settle().await;
             acts.push(format!("r{}:{}", next, id)); calls.push((next, json!(id))); pending.push(next); next += 1;
         } else {
             let i = rng.below(pending.len() as u64) as usize; let t = pending.remove(i);
